@@ -30,6 +30,9 @@ def run(chk):
     idx = chk.idx
     R.rule_stateless(chk, "C12.R8")  # first: its refutations stand even if a later rule cannot read the code
     r6_dtype(chk)  # (the lints as well)
+    # the u in the factors is the bound of the data handed over: installed from the same mvrs_to_data call (C06.R3)
+    from . import c06 as _c06
+    chk.borrow(_c06.r3, {"C06.R3": "C12.R2"})
     r7_no_input_mutation(chk)
     chk.explain(
         "Each test method is translated (AST -> sympy term, if-conversion, NumPy recipes recognised: exclusive "
